@@ -284,7 +284,21 @@ impl FloatInterval {
         };
         
         // Round to nearest valid step boundary
-        self.round_to_step(rough_mid)
+        let mid = self.round_to_step(rough_mid);
+
+        // A split point is only useful if both `x <= mid` and `x >= mid` tighten the interval.
+        // `try_set_max` / `try_set_min` ignore a bound that lies within half a step of the bound
+        // it replaces, so a rounded midpoint that close to `min` or `max` (an interval about 1.5
+        // steps wide) would give a branch that changes nothing while the interval is not yet
+        // fixed, and the search would descend forever. Split at the exact midpoint instead:
+        // an interval that is not fixed is more than one step wide, so its exact midpoint is
+        // more than half a step away from both bounds.
+        let tolerance = self.step / 2.0;
+        if mid > self.min + tolerance && mid < self.max - tolerance {
+            mid
+        } else {
+            rough_mid.clamp(self.min, self.max)
+        }
     }
 }
 
